@@ -428,6 +428,10 @@ type shardResult struct {
 
 // checkTemplate runs the 16 loads of one template.
 func checkTemplate(res *shardResult, idx int, t *Template) {
+	for _, pre := range t.Prelude {
+		runLoad(render(pre), 0, 0)
+		res.Loads++
+	}
 	rd := render(t)
 	exp := Reference(t, repoClass)
 	res.Templates++
